@@ -43,6 +43,7 @@ def one(pid, k, keep):
         suite = m.group(0) if m else outs.strip()[-80:]
         def stable(o):  # timing lines a demo prints to stderr are not part of its result
             keep = [l for l in o.strip().splitlines() if not re.search(r"\[cpu [0-9.]+s\]", l)]
+            keep = [re.sub(r"^(battery \d+ done \d+) [0-9.]+$", r"\1 <time>", l) for l in keep]  # progress lines with elapsed seconds
             # tracebacks a demo lets through to stderr carry line numbers of the (edited) source files: not part of its result
             keep = [re.sub(r'File "([^"]+)", line \d+', r'File "\1", line N', l) for l in keep]
             keep = [re.sub(r"\[?\d{4}-\d\d-\d\d[ T]\d\d:\d\d:\d\d([,.]\d+)?\]?", "<timestamp>", l) for l in keep]  # log lines
